@@ -1,6 +1,7 @@
 mod c16;
 mod c16c;
 mod c17;
+mod c17r;
 mod spec;
 use vkit::{Check, Level};
 fn main() {
